@@ -21,6 +21,7 @@ import (
 	"encoding/hex"
 	"encoding/json"
 	"fmt"
+	"math"
 	"math/rand"
 	"os"
 	"os/exec"
@@ -34,6 +35,7 @@ import (
 	"time"
 
 	"github.com/6tail/lunar-go/HolidayUtil"
+	"github.com/6tail/lunar-go/ShouXingUtil"
 	"github.com/6tail/lunar-go/calendar"
 	"lunarmon/ref"
 )
@@ -115,6 +117,11 @@ func c09Exec(o c09Op) (dig string) {
 		return sha(digest1(calendar.NewSolar(a[0], a[1], a[2], a[3], a[4], a[5]).GetLunar().Next(a[6])))
 	case "nsolar":
 		return sha(calendar.NewSolar(a[0], a[1], a[2], a[3], a[4], a[5]).ToYmdHms())
+	case "dtt":
+		return fmt.Sprintf("%.12g", ShouXingUtil.DtT(float64(a[0])/1000))
+	case "astro":
+		x := float64(a[0]) / 1000
+		return fmt.Sprintf("%.9f/%.9f/%.9f/%.9f", ShouXingUtil.CalcQi(x), ShouXingUtil.CalcShuo(x), ShouXingUtil.QiAccurate2(x), ShouXingUtil.SaLonT(x/36525))
 	case "obj":
 		// not hashed: the parent names the first differing call
 		return mapDigest(c09ObjExec(a, c09Salt))
@@ -232,7 +239,14 @@ func c09Ops(seed int64, n int) (ops []c09Op, hostile []c09Op) {
 		y := c09Years[rng.Intn(len(c09Years))]
 		_, m, d := day(y)
 		h, mi, s := rng.Intn(24), rng.Intn(60), rng.Intn(60)
-		switch rng.Intn(15) {
+		switch rng.Intn(17) {
+		case 15:
+			// delta-T at (and near) the knots of the library's table: days from J2000, in thousandths
+			kn := ShouXingUtil.DT_AT[rng.Intn(len(ShouXingUtil.DT_AT)/5)*5]
+			off := []float64{0, 0, 0, -0.001, 0.001, 3.7}[rng.Intn(6)]
+			ops = append(ops, c09Op{K: "dtt", A: []int{int(math.Round(((kn - 2000) * 365.2425 + off) * 1000))}})
+		case 16:
+			ops = append(ops, c09Op{K: "astro", A: []int{(rng.Intn(7304000) - 730000*1) * 1000 / 10}})
 		case 14:
 			ops = append(ops, c09Op{K: "obj", A: []int{y, m, d, h, mi, s}})
 		case 0, 1, 2:
@@ -273,6 +287,8 @@ func c09Ops(seed int64, n int) (ops []c09Op, hostile []c09Op) {
 			ops = append(ops, c09Op{K: "lnext", A: []int{y, m, d, h, mi, s, rng.Intn(801) - 400}})
 		}
 	}
+	// lunar year 0 and the first weeks of year 1 (valid inputs; a sentinel that collides with year 0 shows here)
+	ops = append(ops, c09Op{K: "ly", A: []int{0}}, c09Op{K: "s2l", A: []int{1, 1, 5, 12, 0, 0}}, c09Op{K: "l2s", A: []int{0, 12, 1, 0, 0, 0}}, c09Op{K: "foto", A: []int{544, 11, 20, 1, 2, 3}}, c09Op{K: "lm", A: []int{0, 11, 3}})
 	hostile = []c09Op{
 		{K: "l2s", A: []int{2020, 13, 1, 0, 0, 0}}, {K: "l2s", A: []int{2020, 2, 31, 0, 0, 0}}, {K: "l2s", A: []int{2020, -5, 1, 0, 0, 0}},
 		{K: "nsolar", A: []int{1582, 10, 10, 0, 0, 0}}, {K: "nsolar", A: []int{2020, 1, 1, 24, 0, 0}}, {K: "s2l", A: []int{2021, 2, 29, 0, 0, 0}},
@@ -346,6 +362,13 @@ func c09ChildMain(args []string) int {
 			if calendar.VerifCacheLockHeld() {
 				res.LockHeld = append(res.LockHeld, i)
 			}
+		}
+	case "first":
+		// the op with index idx is the very first library call of this process (no cache reset): initial state
+		setCur(cur, ops[idx].String())
+		res.Events = append(res.Events, c09Event{idx, c09Exec(ops[idx])})
+		if calendar.VerifCacheLockHeld() {
+			res.LockHeld = append(res.LockHeld, idx)
 		}
 	case "hist":
 		// one seeded order of the multiset (each op twice), single goroutine
@@ -715,6 +738,40 @@ func c09Custom(pc *Parent) {
 	}
 	pc.R.Counters["histories"] = int64(orders)
 	pc.R.Counters["hostile-descriptors"] = int64(len(hostile))
+
+	// B2. initial state: a sample of descriptors, each as the very first call of a fresh process
+	firstIdx := []int{}
+	for i := len(ops) - 5; i < len(ops); i++ { // the year-0 / year-1 descriptors
+		firstIdx = append(firstIdx, i)
+	}
+	nFirst := 12
+	if !quick {
+		nFirst = 60
+	}
+	frng := rand.New(rand.NewSource(pc.Seed*131 + 7))
+	for k := 0; k < nFirst; k++ {
+		firstIdx = append(firstIdx, frng.Intn(len(ops)-5))
+	}
+	firstRes := make([]c09Run, len(firstIdx))
+	for k, i := range firstIdx {
+		wg.Add(1)
+		go func(k, i int) {
+			defer wg.Done()
+			sem <- struct{}{}
+			firstRes[k] = pc.c09Spawn(pc.selfExe, "first", opsFile, i, timeout, nil)
+			<-sem
+		}(k, i)
+	}
+	wg.Wait()
+	for _, r := range firstRes {
+		if r.failed {
+			handleFail(r)
+			continue
+		}
+		judge("first-call", r.idx, r.out.Events)
+		pc.R.Distinct -= int64(len(all)) - 1
+		pc.R.Counters["first-call-processes"]++
+	}
 
 	// C. schedules under the race detector
 	if pc.raceExe == "" {
